@@ -10,8 +10,53 @@ import (
 	"github.com/bfenetworks/bfe/bfe_module"
 	"github.com/bfenetworks/bfe/bfe_modules/mod_prison"
 
+	"github.com/bfenetworks/bfe/bfe_basic"
+
 	"verifharness/vh"
 )
+
+func ruleName(id, i int) string { return fmt.Sprintf("r%d_%d", id, i+1) }
+func jailHeader(i int) string   { return fmt.Sprintf("X-Bfe-Jail-%d", i+1) }
+
+// ruleVerdicts maps what one call of the filter shows to a per-rule verdict:
+// 1 = the rule had the key in jail, 0 = it admitted the request, -1 = not observable.
+//   - REQ_HEADER_SET: its own header is on the request or not;
+//   - CLOSE / FINISH: the filter's result, when only one rule of the list has that action;
+//   - PASS: nothing to observe;
+//   - rules after a CLOSE / FINISH rule that ended the request: nothing to observe.
+func ruleVerdicts(c *prisonCase, ret int, req *bfe_basic.Request) []int {
+	code := map[string]int{"CLOSE": bfe_module.BfeHandlerClose, "FINISH": bfe_module.BfeHandlerFinish}
+	count := map[string]int{}
+	for _, r := range c.Rules {
+		count[r.Action]++
+	}
+	out := make([]int, len(c.Rules))
+	ended := false // an earlier terminal rule certainly or possibly ended the request
+	for i, r := range c.Rules {
+		switch r.Action {
+		case "REQ_HEADER_SET":
+			if req.HttpRequest.Header.Get(jailHeader(i)) != "" {
+				out[i] = 1
+			} else if ended {
+				out[i] = -1
+			}
+		case "CLOSE", "FINISH":
+			switch {
+			case ended:
+				out[i] = -1
+			case ret == code[r.Action] && count[r.Action] == 1:
+				out[i] = 1
+				ended = true
+			case ret == code[r.Action]:
+				out[i] = -1 // which of the rules with this action fired?
+				ended = true
+			}
+		default:
+			out[i] = -1
+		}
+	}
+	return out
+}
 
 // One C53 case: an arrival schedule in ticks (specs/Mod/GenPrison.tla or a seeded driver)
 // and the real periods to play it with.
@@ -22,7 +67,12 @@ type prisonCase struct {
 	CpUs   int64  `json:"cp_us"`   // CheckPeriod
 	SpUs   int64  `json:"sp_us"`   // StayPeriod
 	TickUs int64  `json:"tick_us"` // real length of one schedule tick
-	Arr    []struct {
+	// the product's ordered rule list (all rules match every request); empty = one CLOSE rule with Th
+	Rules []struct {
+		Th     int    `json:"th"`
+		Action string `json:"action"` // CLOSE | FINISH | PASS | REQ_HEADER_SET
+	} `json:"rules"`
+	Arr []struct {
 		K int `json:"k"`
 		T int `json:"t"`
 	} `json:"arr"`
@@ -38,6 +88,7 @@ type prisonEv struct {
 	Lo   int64  `json:"lo"`
 	Hi   int64  `json:"hi"`
 	Deny bool   `json:"deny"`
+	U    bool   `json:"u"` // verdict of this rule not observable for this arrival
 	Info string `json:"info,omitempty"`
 }
 
@@ -61,13 +112,27 @@ func prisonRun() {
 		if c.Kind == "real" {
 			cp, sp = c.CpUs/1000000, c.SpUs/1000000
 		}
-		conf[fmt.Sprintf("c%d", c.ID)] = []interface{}{map[string]interface{}{
-			"Name": fmt.Sprintf("r%d", c.ID), "Cond": "default_t()",
-			"AccessSignConf": map[string]interface{}{"Header": []string{"X-Key"}},
-			"Action":         map[string]interface{}{"Cmd": "CLOSE", "Params": []string{}},
-			"CheckPeriod":    cp, "StayPeriod": sp, "Threshold": c.Th,
-			"AccessDictSize": 64, "PrisonDictSize": 64,
-		}}
+		if len(c.Rules) == 0 {
+			c.Rules = append(c.Rules, struct {
+				Th     int    `json:"th"`
+				Action string `json:"action"`
+			}{c.Th, "CLOSE"})
+		}
+		var rules []interface{}
+		for i, r := range c.Rules {
+			params := []string{}
+			if r.Action == "REQ_HEADER_SET" {
+				params = []string{jailHeader(i), "1"}
+			}
+			rules = append(rules, map[string]interface{}{
+				"Name": ruleName(c.ID, i), "Cond": "default_t()",
+				"AccessSignConf": map[string]interface{}{"Header": []string{"X-Key"}},
+				"Action":         map[string]interface{}{"Cmd": r.Action, "Params": params},
+				"CheckPeriod":    cp, "StayPeriod": sp, "Threshold": r.Th,
+				"AccessDictSize": 64, "PrisonDictSize": 64,
+			})
+		}
+		conf[fmt.Sprintf("c%d", c.ID)] = rules
 	}
 	// a product of its own for the warm-up call (first-call costs must not fall into a schedule)
 	conf["warm"] = []interface{}{map[string]interface{}{
@@ -87,10 +152,12 @@ func prisonRun() {
 		panic("harness: mod_prison refused the rule file: " + err.Error())
 	}
 	for _, c := range cases {
-		prod, name := fmt.Sprintf("c%d", c.ID), fmt.Sprintf("r%d", c.ID)
+		prod := fmt.Sprintf("c%d", c.ID)
 		if c.Kind == "scaled" {
-			if !m.VerifSetPeriods(prod, name, c.CpUs*1000, c.SpUs*1000) {
-				panic("harness: rule not found after load: " + name)
+			for i := range c.Rules {
+				if !m.VerifSetPeriods(prod, ruleName(c.ID, i), c.CpUs*1000, c.SpUs*1000) {
+					panic("harness: rule not found after load: " + ruleName(c.ID, i))
+				}
 			}
 		}
 		// the trace carries the periods as configured (rule file seconds for "real", the values
@@ -112,7 +179,11 @@ func prisonRun() {
 		wg.Add(1)
 		go func(i int, c *prisonCase) {
 			defer wg.Done()
-			evs := []prisonEv{{Ev: "load", Cid: c.ID, Th: c.Th, P: c.CpUs, J: c.SpUs}}
+			// one recorded case per rule: cid = 10*case + rule
+			evs := make([][]prisonEv, len(c.Rules))
+			for r := range c.Rules {
+				evs[r] = []prisonEv{{Ev: "load", Cid: 10*c.ID + r + 1, Th: c.Rules[r].Th, P: c.CpUs, J: c.SpUs}}
+			}
 			prod := fmt.Sprintf("c%d", c.ID)
 			t0 := time.Now().Add(30*time.Millisecond + time.Duration(i%50)*time.Millisecond)
 			for _, a := range c.Arr {
@@ -124,23 +195,30 @@ func prisonRun() {
 				if d := time.Until(t0.Add(time.Duration(int64(a.T)*c.TickUs) * time.Microsecond)); d > 0 {
 					time.Sleep(d)
 				}
-				ev := prisonEv{Ev: "arr", Cid: c.ID, K: a.K}
 				var ret int
 				lo := time.Now()
 				p := vh.Guard(func() { ret, _ = mi.request(bfe_module.HandleFoundProduct, req) })
 				hi := time.Now()
-				// lo is rounded down, hi up: every clock reading of the code lies in [lo, hi]
-				ev.Lo = lo.Sub(t0).Microseconds() + 1000000
-				ev.Hi = (hi.Sub(t0) + time.Microsecond - 1).Microseconds() + 1000000
-				ev.Deny = ret == bfe_module.BfeHandlerClose
-				if p != "" {
-					ev.Info = p
-				} else if ret != bfe_module.BfeHandlerClose && ret != bfe_module.BfeHandlerGoOn {
-					ev.Info = fmt.Sprintf("unexpected handler result %d", ret)
+				info := p
+				if p == "" && ret != bfe_module.BfeHandlerClose && ret != bfe_module.BfeHandlerFinish && ret != bfe_module.BfeHandlerGoOn {
+					info = fmt.Sprintf("unexpected handler result %d", ret)
 				}
-				evs = append(evs, ev)
+				verdicts := ruleVerdicts(c, ret, req)
+				for r := range c.Rules {
+					ev := prisonEv{Ev: "arr", Cid: 10*c.ID + r + 1, K: a.K}
+					// lo is rounded down, hi up: every clock reading of the code lies in [lo, hi]
+					ev.Lo = lo.Sub(t0).Microseconds() + 1000000
+					ev.Hi = (hi.Sub(t0) + time.Microsecond - 1).Microseconds() + 1000000
+					ev.Deny, ev.U = verdicts[r] == 1, verdicts[r] < 0
+					if r == 0 {
+						ev.Info = info
+					}
+					evs[r] = append(evs[r], ev)
+				}
 			}
-			out[i] = evs
+			for _, e := range evs {
+				out[i] = append(out[i], e...)
+			}
 		}(i, c)
 	}
 	wg.Wait()
